@@ -25,7 +25,8 @@ RULE = ("random block programs inside `async with scoped_iter(underlying)`: sequ
         "0 at every point inside the block and after an inner scope's exit, exactly 1 after the outermost exit "
         "(whatever the exit kind), a handle yields nothing and advances nothing after its scope ended. "
         "one evaluation = one executed block (incl. each exception / cancellation position); non-trivial = block "
-        "with >= 2 tool applications or a nested scope or an abnormal exit; distinct = (flavour, program, exit)")
+        "with >= 2 tool applications or a nested scope or an abnormal exit; additionally nested scopes of depth 2..3 "
+        "entered by hand and left in EVERY order (incl. non-LIFO) with re-entrance attempts; distinct = (flavour, program, exit)")
 ASSUMPTIONS = ["iterables without aclose get a neutral context: only the in-block sequence semantics are checked for them",
                "tool laziness is C05's concern; the stdlib twin predicts how many items each tool takes"]
 EXHAUSTIVE = {"quick": False, "thorough": False}
@@ -93,6 +94,16 @@ def count_ops(block):
 
 def cases(tier, seed, shard, nshards):
     rng = random.Random(f"C08-{seed}-{shard}")
+    import itertools as _it
+    k = 0
+    for depth in (2, 3):
+        for order in _it.permutations(range(depth)):
+            for flav in ("async_class", "async_gen", "slowclose"):
+                for taken in (0, 1, 2):
+                    k += 1
+                    if k % nshards == shard:
+                        yield {"kind": "manual", "depth": depth, "order": list(order), "flav": flav, "taken": taken,
+                               "keys": [0, 1, 2, 3, 0, 1]}
     for _ in range(N_PROG[tier] // nshards):
         yield {"block": gen_block(rng, 1), "flav": rng.choice(FLAVS), "keys": [rng.randrange(4) for _ in range(rng.randint(0, 9))],
                "outer_use": rng.random() < 0.3}
@@ -252,7 +263,90 @@ def execute(case, raise_at=None, cancel_at=None, susp=0, raise_type="Exception",
     return viols, info
 
 
+def run_manual(case, stats):
+    """Nested scopes entered by hand and left in EVERY order (also non-LIFO), plus re-entrance."""
+    CTX.reset()
+    keys = case["keys"]
+    st = SrcState(0, [Item(k, (0, i)) for i, k in enumerate(keys)], Plan(), log=False)
+    special = case["flav"] in ("slowclose", "failclose")
+    under = _special_source(st, case["flav"]) if special else make_source(st, case["flav"])
+    viols = []
+    head = f"scoped_iter manual scopes {case}"
+
+    def closed_now():
+        if case["flav"] == "async_gen":
+            return st.finished_gen() and not st.ended
+        return st.closed > 0
+
+    async def main():
+        ctxs, handles = [], []
+        src = under
+        for _ in range(case["depth"]):
+            cm = A.scoped_iter(src)
+            h = await cm.__aenter__()
+            ctxs.append(cm)
+            handles.append(h)
+            src = h
+        # re-entering an active scope must be refused, and must not disturb it
+        try:
+            await ctxs[0].__aenter__()
+            viols.append({"key": "scoped_iter/re-entrance-accepted", "msg": f"{head}: second __aenter__ did not raise"})
+        except RuntimeError:
+            pass
+        got = []
+        for _ in range(case["taken"]):
+            got.append(await handles[-1].__anext__())
+        if [g.uid for g in got] != [(0, i) for i in range(case["taken"])]:
+            viols.append({"key": "scoped_iter/handle-sequence", "msg": f"{head}: innermost handle gave {got}"})
+        exited = set()
+        for level in case["order"]:
+            await ctxs[level].__aexit__(None, None, None)
+            exited.add(level)
+            want_closed = 0 in exited
+            if closed_now() != want_closed:
+                viols.append({"key": "scoped_iter/close-timing",
+                              "msg": f"{head}: after leaving scopes {sorted(exited)} the underlying iterator is "
+                                     f"{'closed' if closed_now() else 'open'}; only the outermost scope may close it"})
+                return
+            # every handle at or below an exited level is dead
+            dead_from = min(exited)
+            for lv in range(dead_from, case["depth"]):
+                if lv in exited or dead_from < lv:
+                    pos = st.pos
+                    try:
+                        item = await handles[lv].__anext__()
+                        viols.append({"key": "scoped_iter/handle-alive-after-exit",
+                                      "msg": f"{head}: handle of level {lv} gave {item} after scopes {sorted(exited)} ended"})
+                        return
+                    except StopAsyncIteration:
+                        if st.pos != pos:
+                            viols.append({"key": "scoped_iter/handle-alive-after-exit", "msg": f"{head}: dead handle advanced the underlying"})
+                            return
+            # handles above every exited level still work while the underlying is open
+            if not want_closed:
+                for lv in range(0, dead_from):
+                    try:
+                        item = await handles[lv].__anext__()
+                    except StopAsyncIteration:
+                        if st.pos < len(keys):
+                            viols.append({"key": "scoped_iter/outer-handle-dead-after-inner-exit",
+                                          "msg": f"{head}: handle of level {lv} is dead after only inner scopes {sorted(exited)} ended"})
+                            return
+        if case["flav"] in ("async_class", "slowclose") and st.closed != 1:
+            viols.append({"key": "scoped_iter/close-count", "msg": f"{head}: underlying aclose called {st.closed} times"})
+
+    drive(main())
+    if CTX.foreign:
+        viols.append({"key": "scoped_iter/foreign-suspension", "msg": CTX.foreign[0]})
+    stats["manual_scope_orders"] += 1
+    if case["order"] != sorted(case["order"], reverse=True):
+        stats["non_lifo_exit_orders"] += 1
+    return {"violations": viols, "evals": 1, "sigs": [("manual", str(case))]}
+
+
 def run_case(case, stats: Counter):
+    if case.get("kind") == "manual":
+        return run_manual(case, stats)
     viols_all = []
     sigs = []
     evals = 0
@@ -297,7 +391,7 @@ def run_case(case, stats: Counter):
 
 def finish(stats, tier):
     for need in ("exit_normal", "exit_exception", "exit_cancel", "inner_scope_exits", "depth_2", "depth_3", "tool_applications",
-                 "left_by_GeneratorExit", "left_by_BaseException", "left_by_thrown_GeneratorExit"):
+                 "left_by_GeneratorExit", "left_by_BaseException", "left_by_thrown_GeneratorExit", "non_lifo_exit_orders"):
         if not stats.get(need):
             return f"deciding counter {need} is zero"
     return None
